@@ -662,6 +662,48 @@ def run_c18(prop, tier, seed, replay=None):
     return rc
 
 
+def run_cli(prop, tier, seed, replay=None):
+    import cli_driver
+    t0 = time.time()
+    known = vlib.load_known()
+    wd = vlib.spec_copy("cli")
+    pm = vlib.start_tlc(wd, "Cli.tla", "Cli.cfg", workers=2, timeout=120)
+    scratch = os.path.join(vlib.scratch(), "cli")
+    os.makedirs(scratch, exist_ok=True)
+    binary = cli_driver.build_binary(scratch)
+    tf = os.path.join(scratch, "cli.ndjson")
+    import subprocess
+    hb = vlib.build_harness()
+    subprocess.run([hb, "-test.run", "^TestWriteCert$"], env=dict(vlib.GOENV, VERIF_OUT=scratch), capture_output=True)
+    cert, key = os.path.join(scratch, "cert.pem"), os.path.join(scratch, "key.pem")
+    n = cli_driver.run(binary, tf, seed, tier, scratch, cert if os.path.exists(cert) else None, key)
+    res = vlib.validate_traces([tf], module="CliTrace.tla", cfg="CliTrace.cfg")
+    rc_t, o = vlib.finish_tlc(pm)
+    st, gen = vlib.tlc_stats(o)
+    if vlib.tlc_verdict(rc_t, o) != "ok":
+        raise Inconclusive("TLC on Cli.cfg failed:\n" + o[-1500:])
+    if [v for v in res["violations"] if v["inv"] == "HARNESS"]:
+        raise Inconclusive("harness-level problem: %r" % [v for v in res["violations"] if v["inv"] == "HARNESS"][:3])
+    rc = 0
+    unlisted = [v for v in res["violations"] if not vlib.match_known(prop, v, known)]
+    for i, v in enumerate(unlisted[:10]):
+        path = vlib.save_replay(prop, 500 + i, {"property": prop, "violation": {k: v[k] for k in v if k != "trace"}, "plan": {"driver": "cli", "seed": seed}})
+        print("VIOLATION property=%s replay=%s" % (prop, path))
+        print("  %s subject=%s: %s" % (v["inv"], v["subj"], v["detail"]))
+        rc = 1
+    samples = [json.loads(l) for l in open(tf).read().splitlines()[:6]]
+    nontrivial = sum(res["coverage"].get(k, 0) for k in ("C20_opt", "C20_validate", "C20_exit", "C20_list"))
+    EVIDENCE.append({"states": max(1, st), "transitions": max(1, gen), "traces_validated_against_impl": 1, "evaluations": n, "distinct_nontrivial": nontrivial,
+                     "rule": "one evaluation = one row of a decision table of spec/Cli.tla executed against the built binary (scratch HOME and XDG_RUNTIME_DIR, "
+                             "real loopback sockets): option source rows (which port is listening / debug log lines), deploy flag combinations against a sentinel "
+                             "socket (contacted or not), client commands against a running proxy (exit status), `list` output parsed",
+                     "antecedent_hits": res["coverage"], "samples": samples, "exhaustive": tier == "thorough",
+                     "_violations": len(unlisted), "_assumptions": ["TLC/SANY", "real time and loopback sockets (no virtual clock)"]})
+    if nontrivial == 0:
+        raise Inconclusive("vacuous run for C20")
+    return rc
+
+
 EVIDENCE = []
 
 
@@ -707,6 +749,8 @@ def main():
             kind = "seq" if "steps" in (json.load(open(a.replay)).get("plan") or {}) else "conc"
         if a.replay and "driver" in (json.load(open(a.replay)).get("plan") or {}):
             kind = "fn"
+        if a.prop == "C20":
+            rc = run_cli(a.prop, a.tier, seed, a.replay)
         if a.prop == "C18":
             rc = run_c18(a.prop, a.tier, seed, a.replay)
         if a.prop in FN and kind in (None, "fn"):
